@@ -43,6 +43,9 @@ pub const EDGES: &[Edge] = &[
     Edge { tag: "UseBareCrate", src: "use foo;\nuse bar as baz;\nuse ::qux;\n#[typeshare]\npub struct EdgeE { pub f: u8 }\n" },
     Edge { tag: "DocWithUnicodeLineBreaks", src: "/// first\u{2028}second\u{2029}third\u{85}fourth\n#[doc = \"x\\u{2028}y\\u{85}z\\u{2029}\"]\n#[typeshare]\n#[serde(tag = \"t\", content = \"c\")]\npub enum EdgeE {\n    /// in\u{2028}side\n    A(u8),\n    B {\n        /** bl\u{2029}ock */\n        f: u8,\n    },\n}\n/// al\u{85}ias\n#[typeshare]\npub type EdgeAlias = Vec<EdgeE>;\n" },
     Edge { tag: "DocWithOddCharacters", src: "#[doc = \"nul \\0 bell \\x07 tab \\t vtab \\x0b ff \\x0c esc \\x1b del \\x7f bom \\u{feff} zwj \\u{200d} rtl \\u{202e} astral \\u{1F600} max \\u{10FFFF}\"]\n#[typeshare]\npub struct EdgeE {\n    #[doc = \"\\u{2028}\"]\n    pub f: u8,\n    #[doc = \"\"]\n    #[doc = \" \"]\n    pub g: u8,\n}\n" },
+    Edge { tag: "EmptyStructVariantAmongUnitVariants", src: "#[typeshare]\npub enum EdgeE {\n    Square,\n    Circle {},\n    Dot,\n}\n" },
+    Edge { tag: "EmptyStructVariantAmongUnitVariants/tagged", src: "#[typeshare]\n#[serde(tag = \"t\", content = \"c\")]\npub enum EdgeE {\n    Square,\n    Circle {},\n    #[serde(skip)]\n    Gone { x: u8 },\n}\n" },
+    Edge { tag: "OnlySkippedMembers", src: "#[typeshare]\n#[serde(tag = \"t\", content = \"c\")]\npub enum EdgeE {\n    A { #[serde(skip)] x: u8, #[typeshare(skip)] y: u8 },\n    #[typeshare(skip)]\n    B(u8),\n}\n#[typeshare]\npub struct EdgeS { #[serde(skip)] pub only: u8 }\n" },
     Edge { tag: "GlobImportOfForeignCrate", src: "use some_foreign_crate::*;\nuse another::deep::module::*;\nuse third::{inner::*, Named};\n#[typeshare]\npub struct EdgeE { pub f: u8, pub g: Named }\n" },
     Edge { tag: "GlobImportRelative", src: "use super::*;\nuse crate::*;\nuse self::*;\nuse crate::nowhere::*;\n#[typeshare]\npub struct EdgeE { pub f: u8 }\n" },
     Edge { tag: "UseOddForms", src: "use a::b::{self, c::{self as d, E}};\nuse ::{f, g::H};\npub use i::J as _;\nextern crate k as l;\n#[typeshare]\npub struct EdgeE { pub f: u8 }\n" },
